@@ -163,6 +163,9 @@ def check_facts(facts):
     return None
 
 
+fix_candidate = TG.fix_typed_candidate
+
+
 def nontrivial(case, impl):
     return bool(case.get("_nt"))
 
